@@ -491,7 +491,7 @@ fn main() {
     }
     let both = fams.values().filter(|(a, r)| *a && *r).count();
     let mut ev = ev;
-    if args.only.is_none() && args.shard == 0 {
+    if args.blocks() {
         aliased_queries(&mut ev);
         overflowing_spans(&mut ev);
     }
